@@ -1,4 +1,5 @@
 import Ruint.Lemmas.Bytes
+import Ruint.Lemmas.RsTactic
 
 /-!
 # C08 — byte encodings are positional, round-trip, and range-check without panicking
@@ -253,5 +254,15 @@ example : tryFromBeSlice 60 (15 :: List.replicate 7 255) = .ok [2 ^ 60 - 1] := b
 example : tryFromLeSlice 12 [0xff, 0x0f] = .ok [0xfff] ∧ tryFromLeSlice 12 [0, 0x10] = .none := by
   decide +kernel
 example : toBeBytesTrimmedVec 65 [0x100, 0] = [1, 0] := by decide +kernel
+
+
+/-! ## Tie of `nbytes` to the source (G)
+
+`Ruint.Gen.nbytes` is regenerated from `src/bytes.rs` by `tools/rs2lean.py` on every run; it equals the `BYTES` every
+statement of this file uses (no `usize` overflow below `2^64 − 7`). -/
+theorem gen_nbytes_eq (bits : ℕ) (h : bits + 7 < 2 ^ 64) : Ruint.Gen.nbytes bits = Ruint.Bytes.nbytes bits := by
+  unfold Ruint.Gen.nbytes Ruint.Bytes.nbytes
+  rs_norm
+  rw [Nat.mod_eq_of_lt h]
 
 end Ruint.C08
